@@ -151,4 +151,5 @@ class WeightedSum(Component):
             self._out_data = result
             self._last_update = time
 
-        return self._out_data
+        # return a copy, as outputs reject data that shares memory with previous data
+        return self._out_data.copy()
